@@ -26,8 +26,9 @@ def node_src(n, ind="") -> list[str]:
         L.append("")
     elif k == "func":
         params = [c["name"] for c in n["ch"] if c["k"] == "param"]
+        dflt = {c["name"]: next((f[8:] for f in c["flags"] if f.startswith("default:")), None) for c in n["ch"] if c["k"] == "param"}
         has_res = any(c["k"] == "result" for c in n["ch"])
-        ps = ", ".join(p if p in ("self", "cls") else f"{p}: int" for p in params)
+        ps = ", ".join(p if p in ("self", "cls") else (f"{p}={dflt[p]}" if dflt.get(p) else f"{p}: int") for p in params)
         deco = {"static": "@staticmethod", "classmethod": "@classmethod", "property": "@property"}
         if "overload" in flags:
             ps1 = ps.replace("a: int", "a: str")
@@ -94,7 +95,8 @@ def observe(api: dict, mid: str, text_valid: bool, pk: str = PKG) -> dict:
                 refs = e["instances"]
             elif kind == "attr":
                 flags = ["static"] if e.get("is_static") else []
-            entries.append({"kind": kind, "id": e["id"], "name": e["name"], "refs": refs, "flags": flags, "supers": supers})
+            dv = json.dumps(e.get("default_value")) if kind == "param" else ""
+            entries.append({"kind": kind, "id": e["id"], "name": e["name"], "refs": refs, "flags": flags, "supers": supers, "dflt": dv})
     mod = next((m for m in api.get("modules", []) if m["id"] == mid), None)
     modrefs = (mod["classes"] + mod["functions"] + mod["enums"]) if mod else []
     return {"mid": mid, "entries": entries, "modrefs": modrefs, "dups": dups, "valid": text_valid and mod is not None}
